@@ -12,6 +12,15 @@ impl Format for Literal {
         _formatter: &mut Formatter,
     ) -> Result<(), FormatterError> {
         match self {
+            // A literal backed by source code is written as it is spelled in the source. Writing the
+            // parsed value would drop the escape sequences: `"a\\nb"` would become `"a\nb"`, which is
+            // a different string, and `"a\\b"` would become `"a\b"`, which does not even lex.
+            Self::String(lit_string) if !lit_string.span.is_empty() => {
+                write!(formatted_code, "{}", lit_string.span.as_str())?
+            }
+            Self::Char(lit_char) if !lit_char.span.is_empty() => {
+                write!(formatted_code, "{}", lit_char.span.as_str())?
+            }
             Self::String(lit_string) => write!(formatted_code, "\"{}\"", lit_string.parsed)?,
             Self::Char(lit_char) => write!(formatted_code, "\'{}\'", lit_char.parsed)?,
             Self::Int(lit_int) => {
